@@ -46,6 +46,21 @@ CHECKS["C12"] = dict(
     note="Trusted: vsched semantics; rig R1 (harness speaks Socket.IO frames by hand). Scope: chains <= 5, <= 3 concurrent clients, bound 2 (quick) / 3 (thorough).",
     design="3/C12")
 
+CHECKS["C06"] = dict(
+    engine="vsched",
+    category="model_checking",
+    technique="stateless model checking of the implementation (deviation-bounded DFS under a controlled scheduler, virtual time) over a cause x phase matrix, plus fault enumeration: a scripted polling session cut at every byte",
+    text="Every termination cause (client DISCONNECT frame, Disconnect(false/true), Engine.IO close with each of its five reasons, protocol error, packet for an unjoined namespace, connect timeout) in every phase (before CONNECT, namespace middleware blocked, connected idle, burst in either direction, two namespaces) and every unordered pair of causes at once is executed on the real sio.Server over a harness-implemented Engine.IO socket and explored to the deviation bound; Server.Close, Manager.Close, client Disconnect, Disconnect(true) and a black-holed link run sio<->sio over the in-process polling link; a scripted Socket.IO-over-polling session has every request body truncated and every response failed at every byte (262 cut points). Oracle: disconnecting <= 1 and before disconnect, disconnect exactly once with a reason naming an injected cause, no event handler after it, and nothing left in the namespace list, the adapter's raw room indexes, the connection's socket table or the Engine.IO session store; the old sid answers 'unknown sid'.",
+    note="Trusted: vsched semantics; rigs R1/R3 (no real TCP; a dead client is modelled by requests that stop and bodies/responses that fail mid-way); upgrade phase is covered by C07's rig, not here. Scope: bound 2 (quick) / 3 (thorough) after a default-schedule set-up.",
+    design="3/C06")
+CHECKS["C11"] = dict(
+    engine="seq",
+    category="exploration",
+    technique="bounded exhaustive enumeration of inputs against an independent reference encoder (Engine.IO v4), round trips, and an allocation meter in a memory-capped subprocess",
+    text="Single packets (all types x every payload of length <= 2 over 256 byte values plus base64 padding classes x binary/base64 modes), payloads of 0-3(4) packets over a 13-packet alphabet, every WebTransport frame length in the three prefix forms (0..70000 in thorough) in three read compositions with a following frame to catch desynchronisation, every byte string of length <= 2(3) into all decoders, and hostile length headers under an allocation meter (limit + 64 KiB) in a ulimit-capped worker. Oracles: bytes equal a reference encoder written from the v4 protocol, decode(encode(p)) = p, EncodedLen = bytes written, no panic, allocation bounded by the configured limit.",
+    note="Trusted: the reference encoder in harness/c11/ref.go (self-tested against the protocol document's examples). Plain build (no scheduler).",
+    design="3/C11")
+
 NOT_APPLICABLE = {
 }
 
